@@ -207,16 +207,16 @@ func caseSize(c interface{}) int {
 func runWithWatchdog(e Engine, seed uint64, f *Findings, out *WorkerOut) *CaseResult {
 	done := make(chan *CaseResult, 1)
 	go func() { done <- e.Run(seed, f) }()
-	// 240 ticks of half a second: a pause of the whole machine (snapshot, migration)
+	// 600 ticks of half a second: a pause of the whole machine (snapshot, migration)
 	// makes one tick fire early, it cannot use up the budget
-	for tick := 0; tick < 240; tick++ {
+	for tick := 0; tick < 600; tick++ {
 		select {
 		case cr := <-done:
 			return cr
 		case <-time.After(500 * time.Millisecond):
 		}
 	}
-	out.Trouble = fmt.Sprintf("watchdog: case seed=%d of engine %s did not finish in 120s", seed, e.Name())
+	out.Trouble = fmt.Sprintf("watchdog: case seed=%d of engine %s did not finish in 300s", seed, e.Name())
 	return nil
 }
 
@@ -506,6 +506,12 @@ func cmdReplay(args []string) int {
 		return 2
 	}
 	trace := len(args) > 1 && args[1] == "-trace"
+	if pf := os.Getenv("VERIF_PPROF"); pf != "" {
+		if f, err := os.Create(pf); err == nil {
+			pprof.StartCPUProfile(f)
+			defer pprof.StopCPUProfile()
+		}
+	}
 	b, err := os.ReadFile(args[0])
 	if err != nil {
 		fmt.Fprintln(os.Stderr, err)
